@@ -480,6 +480,19 @@ func c05Strata() []*gast.Grammar {
 		mk(r("S", gast.S(gast.St(1, box), gast.Star(gast.C(gast.S(gast.Ref("G"), obs(2)), gast.S(gast.Cl(gast.Chars("ab")), obs(3)))), obs(4), gast.Star(gast.Dot()))),
 			r("G", gast.Rec(gast.Ref("I"), gast.S(gast.St(5, box), gast.L("q")), "L1")),
 			r("I", gast.Rec(gast.S(gast.L("a"), gast.St(6, box), gast.C(gast.L("a"), gast.Thr("L1"))), gast.S(gast.St(7, box), gast.L("r")), "L1"))),
+		// an optional / repeated group that runs k state blocks, takes a snapshot (a lookahead) and then
+		// fails, followed directly by k bare state blocks of the enclosing sequence, a lookahead and an
+		// observer: the store after the rollback has "as many changes" as the abandoned path had, with
+		// other content (a snapshot remembered by a change counter would be the stale one)
+		mk(r("S", gast.S(gast.Opt(gast.S(gast.St(1, mon.Spec{S: 1}), gast.AndE(gast.L("a")), gast.L("b"))), gast.St(2, mon.Spec{S: 2}), gast.AndE(gast.L("a")), obs(3), gast.Star(gast.Dot()), obs(4)))),
+		mk(r("S", gast.S(gast.Star(gast.S(gast.St(1, mon.Spec{S: 8}), gast.St(2, mon.Spec{S: 1}), gast.NotE(gast.L("c")), gast.L("a"), gast.L("b"))), gast.St(3, mon.Spec{S: 2}), gast.St(4, box), gast.NotE(gast.L("c")), obs(5),
+			gast.C(gast.S(gast.St(6, mon.Spec{S: 16 | 1}), gast.AndE(gast.Dot()), gast.L("z")), gast.S(gast.St(7, mon.Spec{S: 2}), gast.AndE(gast.Dot()), obs(8), gast.Star(gast.Dot()))), obs(9)))),
+		// a state block in a recovery expression, the label thrown inside a choice alternative that holds no
+		// state block itself; the alternative fails after the recovery, the change is rolled back with it
+		mk(r("S", gast.S(gast.St(1, mon.Spec{S: 1}), gast.Rec(gast.C(gast.S(gast.L("l"), gast.Ref("I"), gast.L(";")), gast.S(gast.L("l"), gast.Star(cls("abx")))), gast.Ref("R"), "L1"), obs(2), gast.Star(gast.Dot()), obs(3))),
+			r("I", gast.C(cls("ab"), gast.Thr("L1"))), r("R", gast.S(gast.St(4, mon.Spec{S: 1 | 2}), gast.Star(cls("x"))))),
+		mk(r("S", gast.S(gast.Rec(gast.Star(gast.C(gast.S(gast.Ref("I"), gast.L("!")), gast.S(gast.Ref("I"), obs(2)))), gast.S(gast.St(4, box), cls("xy")), "L1"), obs(3), gast.Star(gast.Dot()))),
+			r("I", gast.C(cls("ab"), gast.Thr("L1")))),
 	}
 }
 
@@ -851,6 +864,16 @@ func c14Strata() []*gast.Grammar {
 			r("R", gast.C(act(gast.L("~"), 3), gast.Thr("L2")))),
 		// throw inside repetition and predicate
 		mk(r("S", gast.Rec(gast.S(gast.Star(gast.C(gast.L("a"), gast.S(gast.AndE(gast.L("b")), gast.Thr("L2")))), gast.NotE(gast.Thr("L1")), gast.Star(gast.Dot())), act(gast.L("b"), 1), "L1", "L2"))),
+		// a throw in a rule of a reference cycle (V -> Es -> V), an operator for its label at the top and
+		// another one inside the cycle whose guarded expression reaches the throw only through the other
+		// rule of the cycle: the innermost operator in force handles it, whichever was written first
+		mk(r("S", gast.S(gast.Rec(gast.Ref("V"), act(gast.Star(gast.Dot()), 1), "L1"), gast.NotE(gast.Dot()))),
+			r("V", gast.C(act(gast.S(gast.L("["), gast.Opt(gast.Rec(gast.Ref("Es"), act(gast.Star(gast.Cl(&gast.ClassSpec{Chars: []rune("],"), Inverted: true})), 2), "L1")), gast.L("]")), 3),
+				act(gast.Plus(gast.Cl(&gast.ClassSpec{Ranges: [][2]rune{{'0', '9'}}})), 4), gast.Thr("L1"))),
+			r("Es", gast.S(gast.Ref("V"), gast.Star(gast.S(gast.L(","), gast.Ref("V")))))),
+		mk(r("S", gast.S(gast.Rec(gast.Ref("A"), act(gast.Star(gast.Dot()), 1), "L1", "L2"), gast.Star(gast.Dot()))),
+			r("A", gast.C(gast.S(gast.L("("), gast.Ref("B"), gast.L(")")), gast.S(gast.L("a"), gast.C(gast.L("!"), gast.Thr("L2"))), gast.Thr("L1"))),
+			r("B", gast.Rec(gast.S(gast.Ref("A"), gast.Star(gast.S(gast.L(";"), gast.Ref("A")))), act(gast.Star(gast.Cl(&gast.ClassSpec{Chars: []rune(");"), Inverted: true})), 2), "L2", "L1"))),
 	}
 }
 
